@@ -897,7 +897,12 @@ class HttpResponseParser(HttpParser[RawResponseMessage]):
             if version_o <= HttpVersion10:
                 close = True
             # https://www.rfc-editor.org/rfc/rfc9112.html#name-message-body-length
-            elif 100 <= status_i < 200 or status_i in {204, 304}:
+            # and a response to HEAD never has a body either
+            elif (
+                not self.response_with_body
+                or 100 <= status_i < 200
+                or status_i in {204, 304}
+            ):
                 close = False
             elif hdrs.CONTENT_LENGTH in headers or hdrs.TRANSFER_ENCODING in headers:
                 close = False
